@@ -534,7 +534,7 @@ def check_position_translation(ctx, facts, rid="C09.3"):
             ok = None
             if e[0] == "c":
                 ok = "constant"
-            elif b.kind.lower() == "closure" and re.match(r"^_1\.[A-Za-z_0-9]+(?: as \w+)?(?:\.\w+)*$", sh):
+            elif b.kind.lower() == "closure" and re.match(r"^(?:(?:unwrap_or|unwrap_or_default|unwrap|expect)\()?_1\.[A-Za-z_0-9]+(?: as \w+)?(?:\.\w+)*(?:, [^_]*)?\)?(?:\.\w+)*$", sh):
                 ok = "the chain index planned / reached by the batch read (captured local)"
             elif re.match(r"^len\((ref\()*.*\.chain\)*\)$", sh):
                 ok = "chain length (caught up)"
@@ -563,6 +563,138 @@ def fmtfeat_const(e):
     return fmtfeat.const_eval(e)
 
 
+def _carries_result_of(facts, b, local, clo, depth, seen):
+    """Does the value of `local` in body `b` come from what the closure `clo` returns - directly, through a closure that
+    calls it, or through Option combinators applied to such a value ?"""
+    from .core.readflags import _value_defs
+    if depth > 6 or (b.name, local) in seen:
+        return False
+    seen.add((b.name, local))
+    for vsite, vrv in _value_defs(b, local):
+        if vrv["k"] != "call":
+            continue
+        node = vrv["node"]
+        cn = node.get("callee") or ""
+        if strip_generics(cn) == strip_generics(clo.name):
+            return True
+        cb = facts.bodies.get(cn)
+        if cb is not None and cb.kind == "Closure" and _carries_result_of(facts, cb, 0, clo, depth + 1, seen):
+            return True
+        scn = strip_generics(cn)
+        # the result is Some exactly when the receiver is (no predicate can drop it)
+        if re.search(r"^std::option::Option(::<[^>]*>)?::(map|inspect|as_ref|as_mut|as_deref|as_deref_mut|take|cloned|copied)$", scn) and node.get("args"):
+            rl = op_local(b.resolve_copy(node["args"][0]))
+            if rl is None:
+                rl = borrowed_local(b, node["args"][0])
+            if rl is not None and _carries_result_of(facts, b, rl, clo, depth + 1, seen):
+                return True
+        # the result is what the closure handed to the combinator returns
+        if re.search(r"^std::option::Option(::<[^>]*>)?::(and_then|map_or|map_or_else)$|^std::result::Result(::<[^>]*>)?::(map_or|map_or_else)$", scn) and node.get("args"):
+            for a in node["args"][1:]:
+                fl_ = op_local(b.resolve_copy(a))
+                fd = b.single_def(fl_) if fl_ is not None else None
+                if fd and fd[1] == "assign" and fd[2]["rv"]["k"] == "agg" and fd[2]["rv"].get("akind") == "closure":
+                    cb = facts.bodies.get(fd[2]["rv"].get("name"))
+                    if cb is not None and _carries_result_of(facts, cb, 0, clo, depth + 1, seen):
+                        return True
+    return False
+
+
+def strict_commit_records_target(ctx, facts, b, clo, CF, cons_names):
+    """C09.1c, decided by evaluating the commit closure: entered for a consuming read (checkpoint = true) of a
+    StrictlyAtOnce instance, every path to its return has recorded a persist target - in the value it returns or in a
+    variable it captures by mutable reference - that is not the `nothing to persist` value."""
+    from .core.absint import explore_paths
+    strict = cons_names.index("StrictlyAtOnce")
+    ck_keys = set(flag_places(clo, "checkpoint"))
+
+    def place_fn(cp):
+        if place_key(cp) in ck_keys:
+            return ("val", 1)
+        last = cp["p"][-1] if cp["p"] else None
+        if isinstance(last, dict) and last.get("n") == "read_consistency":
+            return ("variant", strict)
+        return None
+
+    def store_key(cp):
+        # *(env.k) where capture k is a `&mut` of an enum / Option
+        pp = cp["p"]
+        if cp["l"] == 1 and len(pp) == 3 and pp[0] == "*" and isinstance(pp[1], dict) and pp[2] == "*" and str(pp[1].get("t", "")).startswith("&mut "):
+            ty = pp[1]["t"][5:]
+            if ty.startswith("std::option::Option") or (facts.adts.get(ty) and len(facts.adts[ty]["variants"]) >= 2):
+                return (pp[1].get("n") or pp[1]["f"], ty)
+        return None
+
+    def variant_index(name, v):
+        if name in ("std::option::Option",) or (name or "").startswith("std::option::Option"):
+            return {"None": 0, "Some": 1}.get(v)
+        adt = facts.adts.get(name or "")
+        if adt:
+            nm = [x["name"] for x in adt["variants"]]
+            if v in nm:
+                return nm.index(v)
+        return None
+
+    def on_call(bb, t, env):
+        cn = strip_generics(t.get("callee") or "")
+        if re.search(r"bool::then(_some)?$", cn) and t["args"]:
+            p_ = op_place(t["args"][0])
+            v = env.get(p_["l"]) if p_ is not None and not p_["p"] else None
+            if v is not None:
+                return {"variant": 1 if v else 0}
+        return None
+
+    ret_ty = clo.local_ty(0)
+    returns_target = ret_ty not in ("()", "")
+    none_idx = None
+    tgt_adt = None
+    if returns_target and not ret_ty.startswith("std::option::Option"):
+        tgt_adt = facts.adts.get(ret_ty)
+    results = []
+
+    def on_return(bb, env):
+        if returns_target:
+            results.append((bb, env.get(("variant", 0), "unknown"), None))
+        else:
+            st = {k[1]: v for k, v in env.items() if isinstance(k, tuple) and k[0] == "store"}
+            results.append((bb, None, st))
+
+    try:
+        explore_paths(clo, {}, place_fn=place_fn, on_call=on_call, on_return=on_return, store_key=store_key, variant_index=variant_index)
+    except Undecided as e:
+        ctx.violate("C09.1c", CF, "strict-commit-undecided", clo.relfile, clo.line, "the commit closure cannot be evaluated for a StrictlyAtOnce consuming read (%s): fail closed" % e)
+        return
+    if not results:
+        ctx.anchor_missing("C09.1c", "a return of the commit closure reachable for a StrictlyAtOnce consuming read")
+        return
+
+    def is_none(adt_name, v):
+        if isinstance(v, int):
+            if adt_name is None or adt_name.startswith("std::option::Option"):
+                return v == 0
+            adt = facts.adts.get(adt_name)
+            return bool(adt) and adt["variants"][v]["name"] == "None"
+        return v == "None"
+
+    bad = []
+    for bb, rv_, st in results:
+        if returns_target:
+            if rv_ == "unknown" or is_none(ret_ty, rv_):
+                bad.append((bb, "returns %s" % ("an undetermined value" if rv_ == "unknown" else "the `nothing to persist` value")))
+        else:
+            good = [k for k, v in st.items() if v != "unknown" and not is_none(k[1], v)]
+            if not good:
+                bad.append((bb, "leaves every captured target unset" if not st else "stores an undetermined / empty target"))
+    if bad:
+        ctx.violate("C09.1c", CF, "strict-commit-without-persist-target", clo.relfile, clo.term(bad[0][0])["line"] if clo.term(bad[0][0]) else clo.line,
+                    "evaluated with checkpoint = true and StrictlyAtOnce, the commit closure %s on %d of its %d return path(s): a consuming batch read returns without its "
+                    "position being made durable" % (bad[0][1], len(bad), len(results)))
+    else:
+        ctx.ok("C09.1c", CF, "evaluated with checkpoint = true and StrictlyAtOnce: every return path records a persist target", clo.relfile, clo.line, "%d return path state(s)" % len(results))
+        return True
+    return False
+
+
 def check_batch_persist(ctx, facts):
     b = facts.body("batch_read_for_topic")
     ctx.saw_body(b)
@@ -587,10 +719,8 @@ def check_batch_persist(ctx, facts):
             ds = [(s, n_) for s, k, n_ in clo.defs.get(l, []) if k == "assign" and n_["rv"]["k"] == "use" and n_["rv"]["op"].get("k") == "const"]
             if any(n_["rv"]["op"].get("val") == 1 for s, n_ in ds) and any(n_["rv"]["op"].get("val") == 0 for s, n_ in ds):
                 flag = (l, ds)
-    if flag is None:
-        ctx.anchor_missing("C09.1c", "persist-to-disk flag in the commit closure")
-        return
-    fl, ds = flag
+    sem_ok = strict_commit_records_target(ctx, facts, b, clo, CF, names)
+    fl, ds = flag if flag is not None else (None, [])
     alo_edges = []
     for T in all_tests(clo):
         if T.kind == "discr" and any(isinstance(e, dict) and e.get("n") == "read_consistency" for e in T.place["p"]):
@@ -679,11 +809,23 @@ def check_batch_persist(ctx, facts):
                 if vrv["k"] == "agg" and vrv.get("akind") == "adt" and vrv.get("variant") not in ("None",):
                     tstores.append((vsite, vrv.get("variant")))
     if not tvars:
+        # the value the commit closure returns, carried to the test through Option combinators and wrapper closures
+        # (`let t = guard.and_then(|mut i| commit(&mut i)); let slot = t.map(encode); if let Some(..) = slot { set }`)
+        for T in all_tests(b):
+            if T.kind == "discr" and not T.place["p"] and [s_ for s_ in sets0 if any(b.edge_guards(e_, s_.bb) for e_ in T.variant_edges.values())]:
+                if _carries_result_of(facts, b, T.place["l"], clo, 0, set()):
+                    tvars[b.local_name(T.place["l"]) or "_%d" % T.place["l"]] = b.local_ty(T.place["l"])
+        if tvars:
+            for vsite, vrv in _value_defs(clo, 0):
+                if vrv["k"] == "agg" and vrv.get("akind") == "adt" and vrv.get("variant") not in ("None",):
+                    tstores.append((vsite, vrv.get("variant")))
+            tnames_by_local = True
+    if not tvars:
         ctx.anchor_missing("C09.1c", "the persist target (a variable captured by the commit closure that the caller tests before WalIndex::set)")
         return
-    if not tstores:
+    if not tstores and fl is not None and not sem_ok:
         ctx.violate("C09.1c", CF, "persist-target-missing", clo.relfile, clo.line, "the commit closure never records a persist target in %s" % sorted(tvars))
-    for site, v in tstores:
+    for site, v in (tstores if fl is not None else []):
         # bypass edges from the closure's checkpoint-true edge to this store: only flag false / the other arm of saw_tail
         ok_flag = False
         for T in all_tests(clo):
@@ -696,7 +838,7 @@ def check_batch_persist(ctx, facts):
     # each cursor store arm has its target store: for each store of cur_block_offset/tail_offset there is a target store dominated by it or in the same arm
     # (the two arms are the successors of the saw_tail test)
     cp = checkpoint_edges(clo)
-    entry_edges = cp
+    entry_edges = cp if fl is not None else []
     if entry_edges:
         tgt_blocks = [s.bb for s, v in tstores]
         by = bypass_edges(clo, entry_edges[0][1], tgt_blocks) if tgt_blocks else []
@@ -720,7 +862,7 @@ def check_batch_persist(ctx, facts):
         if T.kind != "discr" or T.place["p"]:
             continue
         l_ = op_local(b.resolve_copy({"k": "copy", "place": {"l": T.place["l"], "p": []}}))
-        if not ({b.local_name(T.place["l"]), b.local_name(l_) if l_ is not None else None} & tnames):
+        if not ({b.local_name(T.place["l"]) or "_%d" % T.place["l"], b.local_name(l_) if l_ is not None else None} & tnames):
             continue
         ty = b.local_ty(T.place["l"])
         edges_ = dict(T.variant_edges)
